@@ -120,6 +120,10 @@ SitOf(t, how) ==
         \o ":" \o (IF t.d = <<>> /\ t.s = <<>> /\ t.c = <<>> THEN "empty" ELSE "-")}
   \cup (IF t.s # <<>> /\ how = "commit" THEN {"M:" \o t.kind \o ":" \o MdsPat(t.s, "")} ELSE {})
  \cup ParentPat(t, how)
+  \* a context descriptor is updated while it owns a context state that was disassociated and unbound earlier
+  \cup {"U:" \o t.d[i].op \o ":owns-unbound-state:" \o how
+          : i \in {j \in 1..Len(t.d) : Kind[t.d[j].h] = "ctx" /\ t.d[j].op = "upd"
+                                        /\ \E c \in CH : m.C[c].present /\ m.C[c].d = t.d[j].h /\ m.C[c].unbind >= 0 /\ ~InC(c)}}
   \cup (IF t.kb >= 0 THEN {"K:" \o t.kind \o ":behind" \o ToString(t.kb) \o ":" \o how} ELSE {})
   \cup {"D:" \o t.d[i].op \o ":" \o Kind[t.d[i].h] \o ":" \o ToString(Fan(t.d[i].h)) \o ":" \o how : i \in 1..Len(t.d)}
   \cup {"S:" \o t.s[i].op \o ":" \o t.s[i].via \o ":" \o Kind[t.s[i].h] \o ":" \o t.kind \o ":" \o how : i \in 1..Len(t.s)}
